@@ -263,15 +263,17 @@ def ocaml_driver(pid, timeout=900):
     if rc != 0:
         return False, out[-4000:]
     exe = os.path.join(d, "driver")
-    srcs = [os.path.join(d, "model.mli"), os.path.join(d, "model.ml"), os.path.join(d, "driver.ml")]
+    g1 = os.path.exists(os.path.join(d, "USE_G1DRV"))
+    if g1:
+        sh("cp %s %s" % (os.path.join(VERIF, "ocaml", "common", "g1drv.ml"), os.path.join(d, "g1drv.ml")))
+    srcs = [os.path.join(d, "model.mli"), os.path.join(d, "model.ml")] + ([os.path.join(d, "g1drv.ml")] if g1 else []) + [os.path.join(d, "driver.ml")]
     for s in srcs:
         if not os.path.exists(s):
             return False, "missing " + s
     if os.path.exists(exe) and all(os.path.getmtime(exe) >= os.path.getmtime(s) for s in srcs):
         return True, "cached"
-    rc, out = sh("ocamlfind ocamlopt -O2 -w -a -package str model.mli model.ml driver.ml -linkpkg -o driver 2>&1 || "
-                 "ocamlfind ocamlopt -w -a -package str model.mli model.ml driver.ml -linkpkg -o driver",
-                 cwd=d, timeout=timeout)
+    files = " ".join(os.path.basename(x) for x in srcs)
+    rc, out = sh("ocamlfind ocamlopt -w -a -package str %s -linkpkg -o driver" % files, cwd=d, timeout=timeout)
     return rc == 0, out[-4000:]
 
 
@@ -500,3 +502,19 @@ def extract_case(argv, driver_unused, case_no, timeout=600):
         elif n == case_no:
             cur.append(line)
     return cur
+
+
+# ---------------------------------------------------------------------------------------
+# G1: instrumented atomics drop-in
+# ---------------------------------------------------------------------------------------
+def g1_build(bins, timeout=3000):
+    """Regenerates the concurrency-sync drop-in from /repo's current tree and builds the g1
+    harness workspace against it (cargo `paths` override).  Returns (ok, log, target_dir)."""
+    wd = os.path.join(VERIF, "harness", "g1")
+    lk = os.path.join(BUILD, "g1gen.lock")
+    os.makedirs(BUILD, exist_ok=True)
+    rc, out = sh("flock %s python3 gen_dropin.py" % lk, cwd=wd, timeout=300)
+    if rc != 0:
+        return False, "drop-in generation failed (expected alias block not found?):\n" + out, None
+    ok, out2, tdir = cargo_build("g1", bins=bins, timeout=timeout)
+    return ok, out + out2, tdir
